@@ -10,6 +10,7 @@ HERE = os.path.dirname(os.path.dirname(os.path.abspath(__file__)))
 ap = argparse.ArgumentParser()
 ap.add_argument("--tier", default="quick"); ap.add_argument("--seeds", default="0"); ap.add_argument("--only", default="")
 ap.add_argument("--jobs", type=int, default=4); ap.add_argument("--all-checks", action="store_true")
+ap.add_argument("--update-meta", action="store_true", help="record this run in each meta.json (a change that no check caught when it was first tried keeps that fact in missed_when_first_tried)")
 a = ap.parse_args()
 metas = sorted(glob.glob(os.path.join(HERE, "seeded", "*", "meta.json")))
 metas = [m for m in metas if a.only in m]
@@ -48,5 +49,14 @@ with ThreadPoolExecutor(a.jobs) as ex:
         print("%-55s %s  %s" % (name, "CAUGHT" if ok else "MISSED", " ".join("%s@%s=%s" % (c, s, rc) for c, s, rc, _ in res)), flush=True)
         if not ok:
             bad.append(name)
+        if a.update_meta and res and res[0][0] != "PATCH-FAILED":
+            mp = os.path.join(HERE, "seeded", name, "meta.json")
+            meta = json.load(open(mp))
+            if not meta.get("caught_by") and "missed_when_first_tried" not in meta:
+                meta["missed_when_first_tried"] = True
+            meta["checks_run"] = {"%s@seed%s" % (c, s): {"exit": rc, "tags": tags} for c, s, rc, tags in res}
+            meta["caught_by"] = sorted({c for c, s, rc, tags in res if rc == 1})
+            meta["tier"] = a.tier
+            json.dump(meta, open(mp, "w"), indent=1)
 print("seeded changes: %d, missed: %s" % (len(metas), bad))
 sys.exit(1 if bad else 0)
